@@ -193,8 +193,9 @@ def run(cfg, outdir=None, with_series=False):
             g._search.ghe.simulate(method=_T.HOURLY)
         if outdir:
             g.prepare_results("verif", "note", "verif", "it")
-            g.write_output_files(Path(outdir))
+            g.write_output_files(Path(outdir), c.get("_suffix", ""))
             res["outdir"] = outdir
+            res["suffix"] = c.get("_suffix", "")
             res["summary_nbh"] = g.results.output_dict["ghe_system"]["number_of_boreholes"]
         # re-simulate the returned object at the returned height (what C01/C05/C12 observe)
         from ghedesigner.enums import TimestepType
@@ -326,6 +327,27 @@ def run_history(c):
         base = result_key(g0, os.path.join(tmp, "base"))
         out["base"] = {"nbh": base["nbh"], "H": base["H"]}
         variants = {}
+        only = c.get("variants")
+        if only is not None:
+            # a reduced history (expensive design methods): only the named variants
+            if "set_design_twice" in only:
+                g5 = make_manager(cfg)
+                g5.set_design(flow_rate=cfg["design"]["flow_rate"], flow_type_str=cfg["design"]["flow_type"])
+                g5.find_design()
+                variants["set_design_twice"] = result_key(g5, os.path.join(tmp, "v6"))
+            if "repeat_same_manager" in only:
+                g0.find_design()
+                variants["repeat_same_manager"] = result_key(g0, os.path.join(tmp, "v1"))
+            diffs = {}
+            for name, v in variants.items():
+                d = [k for k in ("nbh", "H", "coords", "hp_eft", "tracker") if v[k] != base[k]]
+                d += [fn for fn in base["files"] if v["files"][fn] != base["files"][fn]]
+                diffs[name] = d
+                if d:
+                    out.setdefault("detail", {})[name] = {"nbh": v["nbh"], "H": v["H"]}
+            out["diffs"] = diffs
+            out["ok"] = True
+            return out
         # 1. repeat the search on the same manager
         g0.find_design()
         variants["repeat_same_manager"] = result_key(g0, os.path.join(tmp, "v1"))
